@@ -3,12 +3,14 @@ import re
 
 from common import *
 from props.base import *
+from props.serial_oracle import random_clean_schedule, sched_sx, sched_of_sx, expect_write, KINDS
 
 PID = "C20"
 RULE = ("to_dot_string (and write_as_dot_string, and export against new_anonymous sets) in BOTH modes, as a program (unpruned, pruned) on the same "
         "operands: every function of <=3 variables (covers shared nodes, both-terminal children, constants, skipped levels) under plain names and "
         "under names with spaces/punctuation/multi-byte characters/the empty name; constants over 0..4 variables; random functions over 4..8 variables "
-        "incl. non-canonical valid diagrams (duplicates, redundant tests, unreachable nodes, permuted order); diagrams with >=100 nodes (3-digit "
+        "incl. non-canonical valid diagrams (duplicates, redundant tests, unreachable nodes, permuted order); write_as_dot_string into a scripted "
+        "writer (partial writes of 1..200 bytes, interruptions, a failure after a prefix) against to_dot_string of the same program; diagrams with >=100 nodes (3-digit "
         "indices); names containing a double quote or a newline (text comparison only). relation: the emitted bytes equal the model's bytes exactly. "
         "Independently on every step whose names are quote/newline free: a plain-Python dot reader checks header/entry/terminals/footer, one vertex "
         "per decision node labelled names[var], one filled edge to high and one dotted edge to low (pruned: absent iff the target is 0), evaluates the "
@@ -69,6 +71,19 @@ def programs(rng, tier):
         nv = rng.choice([4, 4, 5, 6, 7, 8])
         b = rand_operand(rng, nv, noncanon=0.3)
         pair(b, pick_names(rng, nv, rng.choice(["plain", "punct", "punct", "quoted"])), op=rng.choice(["dot", "dot", "dot", "dot_write"]))
+    # write_as_dot_string into a writer that accepts the bytes in pieces, is interrupted, or fails after a prefix: the text of
+    # the same program's to_dot_string must arrive completely (clean schedules) / as the prefix the writer accepted before Err
+    for _ in range(150 if tier == "quick" else 4000):
+        nv = rng.choice([1, 2, 3, 4, 5, 6])
+        b = rand_operand(rng, nv, noncanon=0.2)
+        names = pick_names(rng, nv, rng.choice(["plain", "punct"]))
+        pr = rng.choice("TF")
+        approx = 120 + 40 * len(b)
+        ev = random_clean_schedule(rng, approx, cover=rng.random() < 0.6, maxchunk=rng.choice([1, 3, 7, 16, 64, 200]))
+        if rng.random() < 0.25 and ev:
+            i = rng.randrange(len(ev) + 1)
+            ev = ev[:i] + [("E", rng.choice(KINDS))] + ev[i:]
+        progs.append([["t", "dot", bdd_sx(b), names_sx(names), pr], ["w", "dot_write_sched", bdd_sx(b), names_sx(names), pr, sched_sx(ev)]])
     for _ in range(6 if tier == "quick" else 100):
         nv = rng.choice([9, 10])
         b = bdd_from_tt(nv, list(range(nv)), [rng.random() < 0.5 for _ in range(1 << nv)])   # >=100 nodes: 3-digit indices
@@ -233,6 +248,26 @@ def judge(st, V):
         V.count("outside_quantifier")
         V.skipped += 1
         return
+    if op == "dot_write_sched":
+        # oracle: the text of the preceding `dot` step of the same program pushed through an independent simulation of write_all
+        key = (sx_str(call[1]), sx_str(call[2]), call[3])
+        events = sched_of_sx(call[4])
+        V.count("schedule:" + ("with-failure" if any(e[0] == "E" for e in events) else "clean"))
+        text = _texts.get(key)
+        want = expect_write(text, events) if text is not None else None
+        if impl != model or (want is not None and impl != want):
+            V.violations.append(violation(PID, st, "write_as_dot_string through a writer with partial writes: the accepted bytes differ from the %s"
+                                          % ("model" if impl != model else "independent write_all simulation of to_dot_string's text"),
+                                          oracle={"expected": sx_str(want)[:600] if want is not None else None, "observed": sx_str(impl)[:600]},
+                                          confirmed=(want is not None and impl != want), relation="(OK|ERR, accepted bytes) exact"))
+            return
+        if len(nodes) >= 3 and len(events) >= 2:
+            V.nontrivial.add(key_of(call))
+        return
+    if op == "dot" and isinstance(impl, str) and impl.startswith("h:"):
+        _texts[(sx_str(call[1]), sx_str(call[2]), call[3])] = unhex(impl)
+        if len(_texts) > 4000:
+            _texts.clear()
     V.count("mode:" + ("pruned" if pruned else "full"))
     V.count("size:%s" % ("1-2" if len(nodes) < 3 else "3-6" if len(nodes) < 7 else "7-20" if len(nodes) < 21 else "21-99" if len(nodes) < 100 else "100+"))
     sample(V, st)
@@ -271,6 +306,7 @@ def judge(st, V):
 
 
 _cross = [0, 0]
+_texts = {}
 
 
 def finalize(steps, V):
